@@ -84,6 +84,15 @@ def torus(n=3, m=3):
     return np.array(v, dtype=float).T, np.array(e).T
 
 
+def octa_plus_tetra():
+    """Two-component closed grid: the octahedron and a small tetrahedron beside it (elements 0..7 and 8..11)."""
+    v1, e1 = octa()
+    v2, e2 = tetra()
+    v = np.hstack([v1, 0.4 * v2 + np.array([[3.0], [0.2], [0.1]])])
+    e = np.hstack([e1, e2 + v1.shape[1]])
+    return v, e
+
+
 def two_tets_face():
     """Non-manifold multitrace-like grid: two tetrahedra glued along the face (1, 2, 3), which is kept once: 7 triangles, junction edges with 3 faces.
     Elements 0..3 form a closed surface (tetrahedron A), 4..6 the remaining faces of tetrahedron B."""
